@@ -53,8 +53,9 @@ pub fn val_of(j: &J) -> Value {
         "bytes" => Value::bytes(j[1].as_array().unwrap().iter().map(|b| b.as_u64().unwrap() as u8).collect::<Vec<u8>>()),
         "id" => Value::id(j[1].as_str().unwrap()),
         "date" => Value::date(date_of(j[1].as_i64().unwrap())),
-        "time" => Value::time(time_of(j[1].as_i64().unwrap())),
-        "datetime" => Value::date_time(datetime_of(j[1].as_i64().unwrap())),
+        // optional third element: milliseconds within the second
+        "time" => Value::time(time_of(j[1].as_i64().unwrap()) + Duration::milliseconds(j[2].as_i64().unwrap_or(0))),
+        "datetime" => Value::date_time(datetime_of(j[1].as_i64().unwrap()) + Duration::milliseconds(j[2].as_i64().unwrap_or(0))),
         "duration" => Value::duration(Duration::seconds(j[1].as_i64().unwrap())),
         "enum" => {
             let names: Vec<(String, i64)> = j[2].as_array().unwrap().iter().enumerate().map(|(i, s)| (s.as_str().unwrap().to_string(), i as i64)).collect();
@@ -186,8 +187,9 @@ pub fn gen_val_in(rng: &mut Rng, t: &J) -> Option<J> {
                     let cands: Vec<String> = TEXTS.iter().map(|s| s.to_string()).chain([l.clone(), h.clone()]).filter(|s| *s >= l && *s <= h).collect();
                     Some(json!(["text", rng.pick(&cands).clone()])) }
         "date" => { let p = pick_pair(rng, &t[1])?; Some(json!(["date", int_in(rng, &p)])) }
-        "time" => { let p = pick_pair(rng, &t[1])?; Some(json!(["time", int_in(rng, &p)])) }
-        "datetime" => { let p = pick_pair(rng, &t[1])?; Some(json!(["datetime", int_in(rng, &p)])) }
+        // a third of the values carry a sub-second part (kept inside the interval: only when the second is not its upper end)
+        "time" => { let p = pick_pair(rng, &t[1])?; let v = int_in(rng, &p); let sec = v; let hi = p[1].as_i64().unwrap_or(sec); if sec < hi && rng.chance(1, 3) { Some(json!(["time", v, *rng.pick(&[250i64, 500, 1, 999])])) } else { Some(json!(["time", v])) } }
+        "datetime" => { let p = pick_pair(rng, &t[1])?; let v = int_in(rng, &p); let sec = v; let hi = p[1].as_i64().unwrap_or(sec); if sec < hi && rng.chance(1, 3) { Some(json!(["datetime", v, *rng.pick(&[250i64, 500, 1, 999])])) } else { Some(json!(["datetime", v])) } }
         "duration" => { let p = pick_pair(rng, &t[1])?; Some(json!(["duration", int_in(rng, &p)])) }
         "enum" => { let names = t[1].as_array()?; Some(json!(["enum", rng.below(names.len() as u64), names])) }
         "struct" => { let mut fs = vec![]; for f in t[1].as_array()? { fs.push(json!([f[0], gen_val_in(rng, &f[1])?])); } Some(json!(["struct", fs])) }
